@@ -61,6 +61,8 @@ def gen_file(ctx):
             dup = g.decay(src["m"], defs=defs)
         blocks.insert(r.randint(blocks.index(src) + 1, len(blocks)), dup)
     misc = [g.misc(r.choice(decgen.MISC_KINDS)) for _ in range(r.choice([0, 0, 2, 5]))]
+    if r.random() < 0.3:
+        misc.append({"k": "CopyDecay", "a": "CopyOf" + g.label(odd=False), "b": r.choice(blocks)["m"]})
     late_defs = [g.misc("Define") for _ in range(r.choice([0, 0, 1]))]
     stmts = decgen.interleave(r, stmts + late_defs, blocks, misc)
     if r.random() < 0.2:
@@ -179,8 +181,13 @@ def check_text(ctx, text, exp, wit, workload, user_models=(), files=None, nontri
         d = os.path.join(os.environ.get("VMON_RUN_DIR") or core.WORK, f"c01-{os.getpid()}")
         os.makedirs(d, exist_ok=True)
         path = os.path.join(d, "case.dec")
+        from .. import layout  # noqa: PLC0415
+
+        items = layout.segments(text, L.published_models(), user_models)
+        ftext = layout.render(layout.rewrite(items, ctx.rng, ["comment", "space", "blank"], p=0.5))      # comments after decay lines, blank lines
         with open(path, "w", encoding="utf-8", newline="") as fh:
-            fh.write(text)
+            fh.write(ftext)
+        wit = {**wit, "file_text": ftext}
         ok3, res3 = ctx.guard("parse-from-file", wit, snapshot.make_parser, None, [path], user_models)
         if ok3:
             for mech, msg in snapshot.compare_tables(res3[0], exp):
